@@ -42,6 +42,8 @@ func (w *W) Emit(ev map[string]any) {
 	w.b.WriteByte('\n')
 }
 
+func (w *W) Flush() { w.b.Flush() }
+
 func (w *W) Close() {
 	w.b.Flush()
 	w.f.Close()
